@@ -5,7 +5,7 @@ positions and capital); targets and cash fraction from grids (long, short, summi
 from harness.common import EPS_MONEY, EPS_W, bt, dates, fee_fn, fee_val, frame
 
 BOUNDS = {
-    'quick': 'flat tree a,b,c (c not targeted: must be closed), 2 dates on a dyadic grid, prior positions and capital symbolic; 6 target vectors x cash '
+    'quick': 'flat tree a,b,c (c not targeted: must be closed), 2 dates on a dyadic grid (4 dates with a two-date zero-price episode of c), prior positions and capital symbolic; 6 target vectors and the empty one x cash '
              'fraction {none, 0.25}; fractional+no cost => exact weights; fractional/whole-unit with 0.2% commission and bid/offer => within one unit + '
              'costs; nested tree with a sub-strategy target (concrete prior inside the sub-strategy, symbolic capital); RebalanceOverTime n in {2,3} '
              'with a new target vector arriving mid-way',
@@ -18,11 +18,20 @@ MULT = {'a': 1.0, 'b': 10.0, 'c': 0.5}
 SPREAD = {'a': 0.5, 'b': 0.25, 'c': 0.125}
 
 
+PR_ZERO = {'a': [100.0, 104.0, 102.0, 105.0], 'b': [37.5, 35.0, 36.0, 33.0], 'c': [10.0, 0.0, 0.0, 12.5]}
+
+
+def prices(cfg):
+    """price grid of the configuration: the rebalance happens on its last date"""
+    return PR_ZERO if cfg.get('pgrid') == 'zero' else PR
+
+
 def mk(run, cfg):
     B = bt()
-    dts = dates(2)
+    P = prices(cfg)
+    dts = dates(len(P['a']))
     cols = ['a', 'b', 'c']
-    data = frame(run, dts, cols, lambda i, c: PR[c][i])
+    data = frame(run, dts, cols, lambda i, c: P[c][i])
     kids = [B.core.SecurityBase(n, multiplier=MULT[n] if cfg.get('mult', 1) else 1.0) for n in cols]
     s = B.Strategy('s', [], kids)
     integer = bool(cfg.get('int', 0))
@@ -44,7 +53,8 @@ def mk(run, cfg):
             q = run.integer('p' + n, -500, 500) if integer else run.real('p' + n, -500, 500)
         s.transact(q, n)
     s.update(dts[0])
-    s.update(dts[1])
+    for d in dts[1:]:
+        s.update(d)
     if s.bankrupt:
         run.end('bankrupt')
     run.assume(s.value >= 1000)
@@ -80,7 +90,7 @@ def h_rebal(run, cfg):
             else:
                 # value within one trading unit plus this trade's costs of the target value (base = value before the rebalance)
                 q = c.position - pos0[n]
-                unit = PR[n][1] * c.multiplier
+                unit = prices(cfg)[n][-1] * c.multiplier
                 cost = abs(q) * 0.5 * (SPREAD[n] if cfg.get('spread') else 0.0) * c.multiplier + (fee_val(cfg['fee'][0], cfg['fee'][1], q, unit) if cfg.get('fee') else 0.0)
                 unit_cost = 0.5 * (SPREAD[n] if cfg.get('spread') else 0.0) * c.multiplier + (fee_val(cfg['fee'][0], cfg['fee'][1], 1.0, unit) if cfg.get('fee') else 0.0)
                 slack = ((unit + unit_cost) if integer else 0.0) + cost + EPS_MONEY
@@ -180,9 +190,12 @@ def plan(tier):
     quick = tier == 'quick'
     opts = dict(max_paths=4000, timeout_ms=5000 if quick else 20000)
     tasks = []
-    for tg in TARGETS:
+    for tg in TARGETS + [[]]:
         for cash in (None, 0.25):
             tasks.append(dict(harness='rebal', cfg=dict(targets=tg, cash=cash, fee=None, spread=0, int=0), opts=opts))
+    # a held security priced exactly zero on two consecutive dates and recovering before the rebalance: targeted, and untargeted
+    for tg in ([['a', 0.5], ['c', 0.25]], [['a', 0.625], ['b', 0.25]], []):
+        tasks.append(dict(harness='rebal', cfg=dict(targets=tg, cash=None, fee=None, spread=0, int=0, pgrid='zero'), opts=opts))
     costly = TARGETS[:2] if quick else TARGETS
     for tg in costly:
         for integer in (0, 1):
